@@ -144,6 +144,18 @@ class Prop(PropBase):
                     out["joint_stack"] = bool(np.array_equal(both[0], alone[0]) and np.array_equal(both[1], alone[2]))
             except Exception as e:  # noqa
                 out["joint_err"] = err_name(e)
+            # a Dask-backed input whose chunks are uneven along the sample axes (time in one chunk) obeys the same law; with the
+            # time axis in several chunks the transform may refuse (observed) — if it answers, the answer is the same
+            from .. import lazy
+            for how in ("freq", "all"):
+                try:
+                    yu = pb.coherent_dedispersion(lazy.dask_copy(np, z, uneven=how), DM, ref_freq=r)
+                    au = np.asarray(yu.data)
+                    sc = float(np.max(np.abs(np.asarray(y.data)))) if len(y) else 1.0
+                    out["uneven_" + how] = bool(au.shape == np.asarray(y.data).shape and (au.size == 0 or float(
+                        np.max(np.abs(au - np.asarray(y.data)))) <= 1e-4 * (sc or 1.0)))
+                except Exception as e:  # noqa
+                    out["uneven_" + how] = "refused:" + err_name(e)
         out["lazy"] = bool((type(y.data).__module__.startswith("dask")) == case["dask"])
         yd = np.asarray(y.data)
         xd = np.asarray(z.data)
@@ -282,6 +294,10 @@ class Prop(PropBase):
             lim = 1e-5 * max(1.0, math.log2(N + 1))
             if not (0 <= code.get("data_err", -1.0) <= lim):
                 return f"dedispersed data differ from ifft(fft(x)*H)[start:stop] by {code.get('data_err')} (limit {lim:.3g})"
+        for how in ("freq", "all"):
+            if code.get("uneven_" + how) is False or (how == "freq" and str(code.get("uneven_freq", "")).startswith("refused")):
+                return (f"dedispersion of a Dask-backed copy with uneven chunks ({how}) is not the dedispersion of the same samples "
+                        f"({code.get('uneven_' + how)})")
         if code.get("joint_same") is False or code.get("joint_stack") is False:
             return ("dedispersions of one Dask-backed signal that differ only in ref_freq or only in DM, evaluated in one graph, "
                     "differ from the results computed alone")
